@@ -342,13 +342,22 @@ def check_c19(tier, seed):
     # outside ASCII, invisible characters, non-NFC sequences
     hrng = random.Random(seed * 41 + 1919)
     htails = ["abc\n", "abc\r\n", "abc ", "abc\t", "12\n", "e\u0301", "\u212b", "\u0661\u0662\u0663", "\u2167", "\u00b2", "a\u200cb", "a\u00adb", "\U0002f800", "\uff11\uff12", "abc", "12"]
-    hroots = ["http://aaa.example/", "http://bbb.example/obo/BB_", "http://ccc.example/x#", "https://E.org/", "http://ddd.example/p="]
+    hroots = ["http://aaa.example/", "http://bbb.example/obo/BB_", "http://ccc.example/x#", "https://E.org/", "http://ddd.example/p=",
+              # stems that nest, the next character sorting before / after the delimiter (numbering follows the whole URI prefix)
+              "http://bbb.example/obo/GO_", "http://bbb.example/obo/GOCHE_", "http://e.org/go/", "http://e.org/go-plus/", "http://e.org/go/x#", "http://e.org/go/x/"]
     for k in range(60 if quick else 900):
         uris = [hrng.choice(hroots) + hrng.choice(htails) for _ in range(hrng.randrange(1, 8))]
         if hrng.random() < 0.5:
             uris += [hrng.choice(uris)]
         discover_call(calls, uris, hrng.choice([None, None, ["/"], ["#", "/", "_", "="]]), hrng.choice([None, None, 1, 2]), hrng.choice([None, "ns"]), None,
                       hrng.choice(["list", "set", "gen", "tuple"]))
+    for roots in (["http://bbb.example/obo/GO_", "http://bbb.example/obo/GOCHE_"], ["http://e.org/go/", "http://e.org/go-plus/"],
+                  ["http://e.org/go/x#", "http://e.org/go/x/", "http://e.org/go/x_"], ["urn:x:a:", "urn:x:a.b:", "urn:x:a"]):
+        uris = [r + t for r in roots for t in ("1", "2", "abc")]
+        for delims in (None, ["_", "/", "#", ":"]):
+            for cutoff in (None, 2):
+                discover_call(calls, uris, delims, cutoff, None, None, "list")
+                discover_call(calls, list(reversed(uris)), delims, cutoff, "p", None, "tuple")
     # the discover calls the repository's own tests make, with the results THEY saw
     import world
     n_repo = 0
@@ -578,6 +587,22 @@ def check_c17(tier, seed):
         names = [x for r in c.records for x in (r.prefix, *r.prefix_synonyms)][:3] + ["nope"]
         for ident in lrng.sample(long_ids, 5):
             resolve_call(calls, ci_, lrng.choice(names), ident if c.delimiter == ":" else ident.replace(":", "."))
+    # path-safe characters beyond letters and digits (RFC 3986 sub-delims and '@': real DOIs have parentheses, commas, semicolons)
+    for ci_ in (lconvs[:2] + lconvs[-2:]):
+        c = calls.conv_objs[ci_ - 1]
+        names = [x for r in c.records for x in (r.prefix, *r.prefix_synonyms)][:2] + ["nope"]
+        for ident in ("10.1016/S0140-6736(20)30183-5", "a,b;c=d", "x+y", "u@v", "it's", "a*b", "p!q", "$1", "a&b", "(x)/(y)"):
+            resolve_call(calls, ci_, lrng.choice(names), ident)
+    # a converter whose URI prefix SYNONYMS have no "//" (URNs, info: URIs), so that a CURIE can spell a registered URI prefix:
+    # the request /urn:isbn:123 is the CURIE (urn, isbn:123), whatever URI the text looks like
+    urn_recs = [{"p": "urn", "u": "https://example.org/urn/", "ps": ["URN"], "us": [], "pat": None},
+                {"p": "isbn", "u": "https://isbn.example.org/", "ps": [], "us": ["urn:isbn:", "info:isbn/"], "pat": None},
+                {"p": "pmid", "u": "https://pubmed.example.org/", "ps": ["info"], "us": ["info:pmid/"], "pat": None}]
+    for how in ("ctor", "incr"):
+        cu = calls.conv(urn_recs, ":", how=how)
+        for p_, ident in (("urn", "isbn:0451450523"), ("URN", "isbn:0451450523"), ("info", "pmid/123"), ("info", "isbn/9"), ("isbn", "0451450523"), ("nope", "isbn:1"),
+                          ("urn", "lsid:x:y"), ("pmid", "info:pmid/1")):
+            resolve_call(calls, cu, p_, ident)
     batch, group = calls.batch(100)
     fails, stv = tlc.validate_calls(batch, spec="TraceWeb.tla", cfg="TraceWeb.cfg", timeout=1200 if quick else 3000)
     lines, violations, known_f, other = verdict("C17", "web", fails, calls, group, lambda c: {"C17"})
@@ -892,6 +917,7 @@ def check_c15(tier, seed):
     ctx_idx = [calls.conv(r, ":") for r in ctx_recs]
     ctx_extra = ctx_idx[2]
     ctx_empty = calls.conv([], ":")          # a converter without records is still a context: it knows no prefix
+    ctx_bar = calls.conv([{"p": "a", "u": "http://e.org/a/", "ps": ["A", "go"], "us": [], "pat": None}], "|", how="ctor")   # its own delimiter is NOT the sep of from_curie
 
     def add_build(cls, p, ident, name, ci):
         ctx = calls.conv_objs[ci - 1] if ci else None
@@ -1003,6 +1029,11 @@ def check_c15(tier, seed):
                     add_from_curie(cls, p + ":" + ident, ":", cm[9], ctx_idx[k])
                     add_from_curie(cls, p + ":" + ident, ":", cm[9], ctx_extra)
                     add_from_curie(cls, p + ":" + ident, ":", cm[9], ctx_empty)
+                    # the separator is the ARGUMENT sep, whatever the context converter's own delimiter is
+                    for sep2 in ("/", "::", "|"):
+                        add_from_curie(cls, p + sep2 + ident, sep2, cm[9], ctx_idx[k])
+                    for sep2 in (":", "/", "|"):
+                        add_from_curie(cls, p + sep2 + ident, sep2, cm[9], ctx_bar)
                     add_validate(cls, p + ":" + ident, ctx_empty)
                     add_validate(cls, p + ":" + ident, ctx_extra)
                     add_validate(cls, p + ":" + ident, 0)
